@@ -27,6 +27,9 @@ CHECKS = {
  "C18": ("other", "effect analysis over the module call graph (Eval writes nothing non-local), constant-return check, constructor sharing (In rows via ToExpr/Equals), loop-shape check of the In disjunction, kind-guard + boolean-atom path enumeration for Value.Elem",
          "Decides purity of evaluation (an evaluation cannot change a later answer), Any≡true, In=union-of-rows shape and sharing of the Equals implementation, and panic-freedom of Elem() in the equality cascade. Equality semantics over all values (symmetry, numeric coercions) is value-level and not decided.",
          "Trusted: go/ssa; reflect functions are pure; nil-test helpers are recognised as arg functions whose name contains 'nil'."),
+ "C19": ("other", "non-interference (taint) analysis: log-level globals/predicates as sources, log-only effect classification of every region controlled by a tainted branch, transparency check of the one sanctioned wrapper (forward once, same params, CallSlice iff variadic, result returned untouched)",
+         "Decides that the log level can influence only log-only code and that the debug interception wrapper is transparent, for every scenario and value, because the rule is evaluated on every tainted branch and every path of the wrapper closures. Does not decide termination/panic-freedom of fmt on cyclic values.",
+         "Trusted: go/ssa; the allow-list of read-only std functions in c19.go; eight named module functions classified log-safe with reasons (decoders' String/Decode, RawRead, DecodeAddress)."),
 }
 NA = {}
 PENDING_REASON = "check not built yet in this revision (planned per DESIGN.md section 3); not claimed until it runs"
